@@ -69,7 +69,7 @@ static int run_random(uint64_t seed, long n) {
     float t0 = 0;
     for (int k = 0; k < frames; ++k) { t0 += (float)r.unit(); ts[k] = t0; }
     if (r.coin(1, 10)) std::reverse(ts.begin(), ts.end());   // order is data, not sorted by the codec
-    struct Track { int id; int comps; DataType dt; int q; std::vector<float> f; std::vector<int32_t> iv; };
+    struct Track { int id; int comps; DataType dt; int q; std::vector<float> f; std::vector<int32_t> iv; bool deleted = false; };
     std::vector<Track> tracks;
     if (ts_first) anim.SetTimestamps(ts);
     for (int t = 0; t < ntracks; ++t) {
@@ -84,16 +84,31 @@ static int run_random(uint64_t seed, long n) {
         tr.id = anim.AddKeyframes(DT_FLOAT32, tr.comps, tr.f);
       } else {
         tr.iv.resize((size_t)frames * tr.comps);
-        for (auto &x : tr.iv) x = r.range(-100000, 100000);
+        // value classes: moderate, hugging INT32_MAX, hugging INT32_MIN, the whole int32 range, constant
+        const int cls = r.range(0, 5);
+        const int32_t konst = (int32_t)r.u32();
+        for (auto &x : tr.iv)
+          x = cls <= 1 ? r.range(-100000, 100000) : cls == 2 ? INT32_MAX - r.range(0, 200) : cls == 3 ? INT32_MIN + r.range(0, 200) : cls == 4 ? (int32_t)r.u32() : konst;
         tr.id = anim.AddKeyframes(DT_INT32, tr.comps, tr.iv);
       }
       tracks.push_back(tr);
     }
     if (!ts_first) anim.SetTimestamps(ts);
+    // a track may be removed again before encoding (PointCloud::DeleteAttribute, public): the remaining ids are then not contiguous
+    int ndeleted = 0;
+    if (tracks.size() >= 2 && r.coin(1, 3))
+      for (int k = r.range(1, 2); k > 0; --k) {
+        Track &tr = tracks[r.range(0, (int)tracks.size() - 2)];     // never the last one only: keep a hole in the id sequence
+        if (tr.deleted || tr.id < 0) continue;
+        const int idx = anim.GetAttributeIdByUniqueId(tr.id);
+        if (idx < 0) continue;
+        anim.DeleteAttribute(idx);
+        tr.deleted = true; ++ndeleted;
+      }
     EncoderOptions eo = EncoderOptions::CreateDefaultOptions();
     const int speed = r.range(0, 10);
     eo.SetSpeed(speed, speed);
-    for (auto &tr : tracks) if (tr.q > 0 && tr.id >= 0) eo.SetAttributeInt(tr.id, "quantization_bits", tr.q);
+    for (auto &tr : tracks) if (tr.q > 0 && tr.id >= 0 && !tr.deleted) eo.SetAttributeInt(anim.GetAttributeIdByUniqueId(tr.id), "quantization_bits", tr.q);
     EncoderBuffer eb;
     KeyframeAnimationEncoder enc;
     const Status st = enc.EncodeKeyframeAnimation(anim, eo, &eb);
@@ -116,9 +131,12 @@ static int run_random(uint64_t seed, long n) {
       if (found) for (PointIndex p(0); p < outa.num_points(); ++p) b.push_back(d.id(raw_key(ta, p)));
       out.b("ts_found", found).arr("ts_in", a).arr("ts_out", b);
     }
+    out.i("deleted", ndeleted);
     std::string tj = "[";
+    bool firstt = true;
     for (size_t t = 0; t < tracks.size(); ++t) {
       const Track &tr = tracks[t];
+      if (tr.deleted) continue;
       const PointAttribute *ka = (dok && tr.id >= 0) ? outa.keyframes(tr.id) : nullptr;
       Dict d; std::vector<int> a, b;
       const size_t vs = 4u * tr.comps;
@@ -127,7 +145,8 @@ static int run_random(uint64_t seed, long n) {
         a.push_back(d.id(std::string(src, vs)));
       }
       if (ka) for (PointIndex p(0); p < outa.num_points(); ++p) b.push_back(d.id(raw_key(ka, p)));
-      if (t) tj += ",";
+      if (!firstt) tj += ",";
+      firstt = false;
       tj += "{\"id\":" + std::to_string(tr.id) + ",\"comps\":" + std::to_string(tr.comps) + ",\"dt\":" + std::to_string((int)tr.dt) + ",\"q\":" + std::to_string(tr.q) +
             ",\"found\":" + (ka ? "true" : "false") + ",\"comps_out\":" + std::to_string(ka ? (int)ka->num_components() : -1) + ",\"dt_out\":" + std::to_string(ka ? (int)ka->data_type() : -1) +
             ",\"inp\":" + jarr(a) + ",\"out\":" + jarr(b) + "}";
@@ -135,7 +154,7 @@ static int run_random(uint64_t seed, long n) {
     out.raw("tracks", tj + "]").end();
     // quantised tracks in the raw format of the numeric projector (one QRow per track)
     for (const Track &tr : tracks) {
-      if (tr.q == 0 || !dok || tr.id < 0) continue;
+      if (tr.q == 0 || !dok || tr.id < 0 || tr.deleted) continue;
       const PointAttribute *ka = outa.keyframes(tr.id);
       if (!ka || ka->data_type() != DT_FLOAT32) continue;
       std::string xs = "[", xd = "[";
